@@ -6,7 +6,7 @@ From TS Require Import Model.Str Model.Outcome Model.Unicode Model.Types Model.P
                        Model.Lang.TypeScript Model.Lang.Kotlin Model.Lang.Swift Model.Lang.Scala Model.Lang.Go Model.Lang.Python.
 From TS Require Import Spec.C10Spec.
 From TS Require Proofs.C10Lex Proofs.C10_TS Proofs.C10_TSFile Proofs.C10_KT Proofs.C10_SC Proofs.C10_GO Proofs.C10_GOFile
-                Proofs.C10_SW Proofs.C10_PY Proofs.C10_KW Proofs.C10.
+                Proofs.C10_SW Proofs.C10_SWFile Proofs.C10_PY Proofs.C10_PYFile Proofs.C10_KW Proofs.C10.
 
 (* ---------------------------------------------------------------- the lexers *)
 (* the lexer never looks below the bracket stack it started with: a text that is balanced on its own
@@ -72,6 +72,25 @@ Theorem C10_lex_go_partial :
 Proof. exact Proofs.C10.lex_go_partial. Qed.
 Print Assumptions C10_lex_go_partial.
 
+(* Swift: every program of the domain (the Swift generic-constraint strings neutral tokens, every other decorator
+   balanced on its own), every admissible configuration (identifier-shaped prefix, balanced default decorators and
+   CodableVoid constraints, default generic constraints neutral tokens). The finding class C10-swift-label is a
+   grammar defect: the text is lexically balanced there too. *)
+Theorem C10_lex_swift :
+  forall (uc : unicode) (cfg : sw_config) (pd : parsed) (text : str),
+    Proofs.C10_SWFile.c10_sw_cfg_ok cfg = true -> dom_C10 CSW pd = true ->
+    sw_generate uc cfg pd = Ok text -> good_C10_lex CSW text = true.
+Proof. exact Proofs.C10.lex_swift. Qed.
+Print Assumptions C10_lex_swift.
+
+(* Python: header docstring, import lines, TypeVars, helper functions, every declaration *)
+Theorem C10_lex_python :
+  forall (uc : unicode) (cfg : py_config) (pd : parsed) (text : str),
+    unicode_ok uc -> Proofs.C10_PYFile.c10_py_cfg_ok cfg = true -> dom_C10 CPY pd = true ->
+    py_generate uc cfg pd = Ok text -> good_C10_lex CPY text = true.
+Proof. exact Proofs.C10.lex_python. Qed.
+Print Assumptions C10_lex_python.
+
 (* ---------------------------------------------------------------- (1') layout layer, all declarations *)
 (* the text of EVERY declaration whose names are neutral tokens, whose doc lines are safe and whose verbatim
    parts are balanced closes every bracket, string literal and comment it opens - whatever the bracket stack *)
@@ -100,22 +119,21 @@ Theorem C10_go_layout_balanced :
 Proof. exact Proofs.C10_GO.go_render_decl_bal. Qed.
 Print Assumptions C10_go_layout_balanced.
 
-(* Swift, partial (layout layer only): structs with their CodingKeys and init, String-backed and algebraic enums
-   with their Codable implementation, type aliases, CodableVoid. The decision layer of the Swift back end (trim /
-   split of constraint strings, trimmed doc lines) is not followed from the IR. *)
-Theorem C10_lex_swift_layout_partial :
+(* Swift: structs with their CodingKeys and init, String-backed and algebraic enums with their Codable
+   implementation, type aliases, CodableVoid *)
+Theorem C10_swift_layout_balanced :
   forall d : sw_decl, Proofs.C10_SW.c10_sw_decl_ok d = true ->
   forall st, c10_lex_run c10_lex_sw (C10LCode, st) (sw_render_decl d) = (C10LCode, st).
 Proof. exact Proofs.C10_SW.sw_render_decl_bal. Qed.
-Print Assumptions C10_lex_swift_layout_partial.
+Print Assumptions C10_swift_layout_balanced.
 
-(* Python, partial (layout layer only): classes with docstrings, (str, Enum) classes, variant classes, Union lines,
-   aliases, consts. A docstring line may contain double quotes, but not three in a row, and no backslash. *)
-Theorem C10_lex_python_layout_partial :
+(* Python: classes with docstrings, (str, Enum) classes, variant classes, Union lines, aliases, consts. A docstring
+   line may contain double quotes, but not three in a row, and no backslash. *)
+Theorem C10_python_layout_balanced :
   forall d : py_decl, Proofs.C10_PY.c10_py_decl_ok d = true ->
   forall st, c10_lex_run c10_lex_py (C10LCode, st) (py_render_decl d) = (C10LCode, st).
 Proof. exact Proofs.C10_PY.py_render_decl_bal. Qed.
-Print Assumptions C10_lex_python_layout_partial.
+Print Assumptions C10_python_layout_balanced.
 
 (* ---------------------------------------------------------------- (2) keyword escapes, all programs *)
 (* Swift: every definition name and property name of the generated file that is in SWIFT_KEYWORDS is written in
